@@ -362,9 +362,13 @@ func c13TwoCycles(r *obs.Run, wl c12Workload, conc bool, n int) {
 			r.Violate("panic", fmt.Sprintf("two-cycle run (write #%d of each cycle failing): panic: %v", n, e), w)
 		}
 	}()
-	for c := 0; c < 2; c++ {
+	for c := 0; c < 3; c++ {
 		inj.mu.Lock()
 		inj.cyc, inj.cycWrites = c, 0
+		if c == 2 { // a third, healthy cycle drained with AutoClear set: nothing of the failed cycles may be left behind
+			inj.fault.N = 1 << 40
+			m.AutoClear = true
+		}
 		inj.mu.Unlock()
 		var cy cyc
 		note := func(where string, err error) {
@@ -405,6 +409,29 @@ func c13TwoCycles(r *obs.Run, wl c12Workload, conc bool, n int) {
 		for k := 0; correct && k < len(want); k++ {
 			correct = cy.Got[k] == want[k]
 		}
+		if c == 2 {
+			if len(cy.Errors) == 0 && !correct {
+				r.Violate("failure-hidden", fmt.Sprintf("healthy use cycle after two cycles whose write #%d failed (workload %+v, concurrent=%v): no error reported, %d of %d values delivered", n, wl, conc, len(cy.Got), len(vals)), w)
+				return
+			}
+			if len(cy.Errors) == 0 {
+				var left []string
+				subs, _ := os.ReadDir(scratch)
+				for _, d := range subs {
+					ents, _ := os.ReadDir(filepath.Join(scratch, d.Name()))
+					for _, e := range ents {
+						left = append(left, e.Name())
+					}
+				}
+				r.Count("healthy_cycles_drained_with_autoclear_after_failed_cycles", 1)
+				if len(left) > 0 {
+					w["files_left"] = left
+					r.Violate("autoclear-residue", fmt.Sprintf("two cycles with write #%d failing, each abandoned with Clear, then a healthy cycle drained to io.EOF with AutoClear set (workload %+v, concurrent=%v): %d run file(s) remain: %v", n, wl, conc, len(left), left), w)
+					return
+				}
+			}
+			break
+		}
 		r.Count("two_cycle_fault_cycles", 1)
 		if cy.Fired {
 			r.Count("two_cycle_faults_reached", 1)
@@ -418,7 +445,7 @@ func c13TwoCycles(r *obs.Run, wl c12Workload, conc bool, n int) {
 				n, c+1, wl, conc, c > 0, len(cy.Got), len(vals)), w)
 			return
 		}
-		if c == 0 {
+		if c < 2 {
 			if err := m.Clear(); err != nil {
 				r.Count("two_cycle_clear_errors", 1)
 				return
